@@ -48,13 +48,13 @@ def setup():
 
 OPS = ['def_m1', 'def_m2', 'def_m_none', 'def_m_empty', 'def_mg', 'def_special4', 'def_ab3', 'use_p', 'use_q_list', 'use_r_ab', 'use_p_uneval',
        'file2_redefine', 'include_def_use', 'finalize', 'def_and_use_one_text', 'use_then_def_one_text',
-       'def_gin_macro5', 'use_p_short_ref', 'use_r_uneval', 'def_m11_skip_unknown', 'def_ab_skip_list']
+       'def_gin_macro5', 'use_p_short_ref', 'use_r_uneval', 'def_m11_skip_unknown', 'def_ab_skip_list', 'def_a_prefix']
 TEXT = {
     'def_m1': 'm = 1', 'def_m2': 'm = 2', 'def_m_none': 'm = None', 'def_m_empty': "m = ''", 'def_mg': 'm = @c05.g()', 'def_special4': 'm/macro.value = 4',
     'def_gin_macro5': 'm/gin.macro.value = 5',
     'def_ab3': 'a/b = 3', 'use_p': 'c05.c.p = %m', 'use_q_list': "c05.c.q = [%m, 'x', %m]", 'use_r_ab': 'c05.c.r = %a/b',
     'use_p_uneval': 'c05.c.p = @m/macro', 'use_p_short_ref': 'c05.c.p = @m/macro()',
-    'use_r_uneval': 'c05.c.r = @m/gin.macro', 'def_m11_skip_unknown': 'm = 11', 'def_ab_skip_list': 'a/b = 12',
+    'use_r_uneval': 'c05.c.r = @m/gin.macro', 'def_m11_skip_unknown': 'm = 11', 'def_ab_skip_list': 'a/b = 12', 'def_a_prefix': 'a = 77',
     'def_and_use_one_text': 'm = 7\nc05.c.p = %m\nm = 8',
     'use_then_def_one_text': 'c05.c.r = %a/b\na/b = 9',
 }
@@ -106,6 +106,8 @@ class World:
       self.macros['m'] = 11
     elif op == 'def_ab_skip_list':
       self.macros['a/b'] = 12
+    elif op == 'def_a_prefix':
+      self.macros['a'] = 77      # macro `a` is NOT macro `a/b`: binding it must not make %a/b count as bound
     elif op == 'file2_redefine':
       self.macros['m'] = 20
     elif op == 'include_def_use':
